@@ -139,6 +139,21 @@ shutil.rmtree(os.path.join(root, b"d"))
 porcelain.add(r, paths=["d"])
 show("D8b", "index after rm -r d; add('d'): %s" % sorted(r.open_index()), "[b'a']")
 
+r, root = repo({b"a": b"x", b"b": b"x"})
+os.unlink(os.path.join(root, b"b"))
+os.mkdir(os.path.join(root, b"b"))
+with open(os.path.join(root, b"b", b"x"), "wb") as f:
+    f.write(b"x")
+porcelain.add(r, paths=["b"])
+r.get_worktree().unstage(["b"])
+show("D8c", "index after b -> b/x; add('b'); unstage('b'): %s" % sorted(r.open_index()), "[b'a', b'b']  (as in HEAD)")
+r, root = repo({b"d/x": b"x"})
+try:
+    r.get_worktree().unstage(["d"])
+    show("D8d", "unstage('d') where HEAD has d/x: index %s" % sorted(r.open_index()), "[b'd/x']")
+except AssertionError:
+    show("D8d", "unstage('d') where HEAD has d/x RAISES AssertionError", "index [b'd/x']  (git restore --staged d)")
+
 # D9 — symlink loop makes the ignore manager raise ELOOP
 r, root = repo({b"a": b"x"})
 os.symlink(b"q", os.path.join(root, b"p"))
